@@ -178,6 +178,18 @@ CHECKS = {
          "coincident centres) with an independent reference evaluator; symmetry, PSD, transposition, screening and rejections.",
     note="exactness for general real exponents rests on the polynomial argument and on the reference evaluator (a second implementation built from docs/basis.rst), not on TLC",
     technique="TLA+ integer-lattice kernel table and equivariance state machine checked with TLC + lattice binding, behaviour replay and reference-evaluator comparison"),
+ "C01": dict(
+    category="exploration", design_ref="DESIGN.md section 6 C01",
+    text="Wavefunction.tla gives the structural denotation of a wavefunction; TLC checks as a state machine over all bases of <=2/3 "
+         "shells that every announced conversion (convention change, segmentation, sorting shells together with their rows) "
+         "preserves it and exhibits that sorting without the rows does not; generated wavefunctions (ghost/ECP centres, every "
+         "shell type the target holds, SP/generalized contractions, shell orders, convention tables of every format and random "
+         "signed permutations, 5 orbital kinds, virtuals, density matrices, values beyond +-1000) with reference-orthonormal "
+         "orbitals are dumped to the 5 formats; the file is projected through load_one and an independent WFN/WFX reader, orbitals "
+         "and densities are evaluated at probe points with the reference evaluator and TLC validates each record against DumpOK "
+         "(error of the contract, or readable + same nuclei/orbitals/occupations/energies/spin/density, conversions announced).",
+    note="floating-point comparison of orbital values is done by the projection (tolerance 2e-6..3e-5 of the sum of |c x chi|); independent readers exist for WFN/WFX only",
+    technique="TLA+ denotation model (Wavefunction.tla) checked with TLC + TLC validation of projected dump/reload records using a reference evaluator"),
 }
 NOT_YET = "check not built yet in this round (planned, see DESIGN.md section 6)"
 
